@@ -420,7 +420,11 @@ fn witnesses(run: &Run) {
             run.count("witnesses_exact", 1);
         } else {
             run.count("witnesses_wrong", 1);
-            let obs = wrong.join("; ");
+            let obs = if wrong.len() > 3 {
+                format!("{} (+{} more)", wrong[..3].join("; "), wrong.len() - 3)
+            } else {
+                wrong.join("; ")
+            };
             if std::env::var("VH_PRINT_WITNESS_SIGS").is_ok() {
                 eprintln!("WITNESS-SIG\t{}\ttree[lone_cr]\t{}", w.id, vh_core::serde_json::to_string(&format!("{}|{}", w.id, obs)).unwrap());
             }
@@ -461,7 +465,11 @@ fn witnesses(run: &Run) {
             run.count("witnesses_exact", 1);
         } else {
             run.count("witnesses_wrong", 1);
-            let obs = wrong.join("; ");
+            let obs = if wrong.len() > 3 {
+                format!("{} (+{} more)", wrong[..3].join("; "), wrong.len() - 3)
+            } else {
+                wrong.join("; ")
+            };
             if std::env::var("VH_PRINT_WITNESS_SIGS").is_ok() {
                 eprintln!("WITNESS-SIG\t{}\terror[lone_cr]\t{}", w.id, vh_core::serde_json::to_string(&format!("{}|{}", w.id, obs)).unwrap());
             }
@@ -521,9 +529,11 @@ pub fn main() {
     run.assume("validation and execution error locations are checked by another engine");
     let feats = Features::from_run(&run);
     let cfg = c14_gen_config(&feats);
-    let docs = run.scale(20_000, 600_000);
+    // sized for ~2.5 min on an idle 16-core machine; under load the time budget ends the run earlier
+    let docs = run.scale(20_000, 2_500_000);
+    let budget_s = run.scale(45, 420) as f64;
     let mutants = 3u64;
-    run.set_floors(docs * 2, docs);
+    run.set_floors(run.scale(40_000, 1_000_000), run.scale(20_000, 500_000));
     run.set_max_samples(4);
     run.require_counter("tree:documents_exact");
     run.require_counter("error:positions_exact");
@@ -540,7 +550,12 @@ pub fn main() {
     let failed = sharded(shards, |shard| {
         let mut r = Rng::new(rng::mix(&[run.seed, 14, shard]));
         let hot = Hot::new(&run);
-        for _ in 0..docs / shards {
+        for i in 0..docs / shards {
+            // the machine is shared: stop at the time budget and report what was measured
+            if i % 64 == 0 && run.elapsed_s() > budget_s {
+                hot.count("shards_stopped_by_time_budget", 1);
+                break;
+            }
             one_document(&hot, &feats, &cfg, &mut r, mutants);
         }
     });
